@@ -274,7 +274,13 @@ impl<'a> ExprGen<'a> {
     }
 
     fn num(&mut self) -> String {
-        self.r.range(-4, 5).to_string()
+        if self.r.chance(1, 14) {
+            // long number tokens (7-10 digits): harmless as indexes, but they exercise the
+            // number lexer's buffers and the i32 edges
+            (*self.r.pick(&["1000000", "12345678", "2147483647", "-2147483647", "99999999", "-1000000"])).to_string()
+        } else {
+            self.r.range(-4, 5).to_string()
+        }
     }
 
     fn slice(&mut self) -> String {
